@@ -3,7 +3,7 @@
 # property and record the verdicts in seeded/RESULTS.md. /repo must be clean; each change is undone straight afterwards.
 cd /verif || exit 2
 if ! git -C /repo diff --quiet; then echo "/repo has uncommitted changes"; exit 2; fi
-seeds=("$@"); if [ ${#seeds[@]} -eq 0 ]; then seeds=($(ls seeded | grep -E '^C[0-9]+(-r[0-9]+)?-m[0-9]+$' | sort)); fi
+seeds=("$@"); if [ ${#seeds[@]} -eq 0 ]; then seeds=($(ls seeded | grep -E '^C[0-9]+(-r[0-9]+(-[a-z]+)?)?-m[0-9]+$' | sort)); fi
 out=seeded/RESULTS.md
 { echo "# Seeded changes against the quick checks"; echo; echo "(written by tools/seedmatrix.sh on $(date -u +%Y-%m-%dT%H:%MZ); /verif at $(git rev-parse --short HEAD), /repo at $(git -C /repo rev-parse --short HEAD))"; echo; echo "| seed | property | verdict | replay kind | what no longer checks | message |"; echo "|---|---|---|---|---|---|"; } > $out
 for s in "${seeds[@]}"; do
